@@ -508,11 +508,14 @@ func trimStacks(s string, n int) string {
 }
 
 func runC12(r *ev.Run) {
-	r.Rule = "per stack: G in {1,4,16} goroutines blocked in Receive (and ServeAsk) with non-expiring contexts on one node while two peers tell/ask it continuously, optionally replying from inside the callbacks, optionally with an Ask of its own outstanding (the peer's handler has started and is held); Close at a seeded moment, in a third of the cases from two goroutines at once, in a third after the peers have fallen silent (receivers truly blocked) (seeded delays at hub/queue hook points); monitors: Close itself, the blocked calls, a second Close and 50 further calls must not stay parked (two goroutine snapshots 1 s apart) and must not report success; messages created after Close returned (epoch flag set by the harness after Close returned) must never reach a callback; after closing every swarm of the stack no goroutine started by them may remain; an sshswarm node closed while four raw ssh clients connect and send 40 tells each the moment their handshake is done (30-150 rounds): no goroutine of its connections may remain; an sshswarm node closed while its first Tell to a peer is inside the outbound connection setup (the peer, a raw ssh server, holds the handshake until Close has returned / is running / is about to be called; 24-120 rounds): while the peer keeps its end open no goroutine of the closed node may stay parked in the library. non-trivial = deliveries were flowing when Close was called; distinct = (stack, G, reply-in-callback, traffic overlap)"
+	r.Rule = "per stack: G in {1,4,16} goroutines blocked in Receive (and ServeAsk) with non-expiring contexts on one node while two peers tell/ask it continuously, optionally replying from inside the callbacks, optionally with an Ask of its own outstanding (the peer's handler has started and is held); Close at a seeded moment, in a third of the cases from two goroutines at once, in a third after the peers have fallen silent (receivers truly blocked) (seeded delays at hub/queue hook points); monitors: Close itself, the blocked calls, a second Close and 50 further calls must not stay parked (two goroutine snapshots 1 s apart) and must not report success; messages created after Close returned (epoch flag set by the harness after Close returned) must never reach a callback; after closing every swarm of the stack no goroutine started by them may remain; an sshswarm node closed while four raw ssh clients connect and send 40 tells each the moment their handshake is done (30-150 rounds): no goroutine of its connections may remain; an sshswarm node closed while its first Tell to a peer is inside the outbound connection setup (the peer, a raw ssh server, holds the handshake until Close has returned / is running / is about to be called; 24-120 rounds): while the peer keeps its end open no goroutine of the closed node may stay parked in the library; channel swarms of one multiplexer (five kinds) opened, closed, re-opened under the same channel id and closed again through stale handles in 40-400 seeded histories, four calls blocked in Receive/ServeAsk at the first Close of every handle: all of them and two calls made afterwards must return a non-nil error. non-trivial = deliveries were flowing when Close was called; distinct = (stack, G, reply-in-callback, traffic overlap)"
 	g := rng.New(r.Seed, "C12", fmt.Sprint(r.Batch))
 	if r.Mine(0) {
 		c12SSHCloseDuringSetup(r, rng.New(r.Seed, "C12-ssh-setup")) // first in its batch: nothing else has left goroutines behind yet
 		c12SSHCloseDuringDial(r, rng.New(r.Seed, "C12-ssh-dial"))
+	}
+	if r.Mine(1) {
+		c12MuxLifecycle(r, rng.New(r.Seed, "C12-mux-lifecycle"))
 	}
 	idx := 0
 	for _, sf := range append(allStacks(), closeErrStacks()...) {
